@@ -111,6 +111,23 @@ pub fn check_presentation(issued: &Issued, fmt: Fmt, expected: &BTreeSet<Path>, 
                 && kbj.payload.get("aud") == Some(&Value::String(args.aud.clone()))
                 && kbj.payload.get("sd_hash") == Some(&Value::String(want_hash.clone()))
                 && kbj.payload.get("iat").map(|v| v.is_u64()).unwrap_or(false);
+            // … and is signed with the key handed to THIS call
+            if let (Some(jwk), Some(alg)) = (args.key.jwk(), args.key.alg()) {
+                let segs: Vec<&str> = k.split('.').collect();
+                let verified = segs.len() == 3
+                    && jsonwebtoken::DecodingKey::from_jwk(&jwk)
+                        .ok()
+                        .and_then(|dk| jsonwebtoken::crypto::verify(segs[2], format!("{}.{}", segs[0], segs[1]).as_bytes(), &dk, alg.jwt()).ok())
+                        .unwrap_or(false);
+                if !verified {
+                    return Err(pfail(
+                        "presentation:kb-signature",
+                        format!("the KB-JWT's signature does not verify under the holder key passed to this call ({})", args.key.name()),
+                        &issued.text,
+                        presentation,
+                    ));
+                }
+            }
             if !ok {
                 return Err(pfail(
                     "presentation:kb-content",
